@@ -465,13 +465,13 @@ func runC04(w *core.W) {
 		}
 	}
 	// 1. random pairs
-	for i, n := 0, w.Pick(30000, 500000); i < n; i++ {
+	for i, n := 0, w.Pick(120000, 1500000); i < n; i++ {
 		e := &AExpr{Op: arithOps[i%5], L: &AExpr{Lit: randOperand(r)}, R: &AExpr{Lit: randOperand(r)}}
 		c04Arith(w, e)
 		sample("pair", e, i)
 	}
 	// 2. boundary families
-	for i, n := 0, w.Pick(6000, 100000); i < n; i++ {
+	for i, n := 0, w.Pick(24000, 300000); i < n; i++ {
 		var a, b string
 		op := arithOps[r.Intn(5)]
 		switch i % 8 {
@@ -538,7 +538,7 @@ func runC04(w *core.W) {
 		left := r.Intn(ops)
 		return &AExpr{Op: arithOps[r.Intn(5)], L: build(left), R: build(ops - 1 - left)}
 	}
-	for i, n := 0, w.Pick(15000, 300000); i < n; i++ {
+	for i, n := 0, w.Pick(60000, 900000); i < n; i++ {
 		e := build(2 + r.Intn(3))
 		c04Arith(w, e)
 		w.Count("chain_cases")
@@ -552,7 +552,7 @@ func runC04(w *core.W) {
 	}
 	// 4. hand-back on literals and simple operations in and out of the exact domain
 	r = w.RNG("handback")
-	for i, n := 0, w.Pick(15000, 200000); i < n; i++ {
+	for i, n := 0, w.Pick(60000, 600000); i < n; i++ {
 		var e *AExpr
 		switch i % 4 {
 		case 0:
@@ -573,7 +573,7 @@ func runC04(w *core.W) {
 	// 5. data values
 	r = w.RNG("data")
 	fedge := []float64{0.1, 0.2, 0.3, 1e22, 1e23, 5e-324, math.MaxFloat64, 1 << 53, 1<<53 + 2, 9007199254740993, 30.749999000000003, 0.30000000000000004, 1.1, 2.2, 1e-7, 123456789.123456789, -0.0, 1, -1, 4.35, 100, 1e15, 1e16, 1e17, 2.5e-10}
-	for i, n := 0, w.Pick(15000, 300000); i < n; i++ {
+	for i, n := 0, w.Pick(60000, 900000); i < n; i++ {
 		var c *DataNumCase
 		switch i % 6 {
 		case 0:
